@@ -251,6 +251,8 @@ def run_c06(tier, seed):
     raws = [gen.curated_schemas()[i] for i in (2, 7, 30, 33)] + [{"type": "record", "name": "R", "fields": [{"name": "a", "type": "long"}, {"name": "s", "type": "string"}]}]
     BIG = {"type": "record", "name": "Big", "fields": [{"name": "id", "type": "long"}, {"name": "payload", "type": "bytes"}, {"name": "t", "type": "string"}]}
     raws.append(BIG)
+    MANY = {"type": "record", "name": "Many", "fields": [{"name": "a", "type": "int"}]}
+    raws.append(MANY)
     for raw in raws:
         try:
             p, ns = SS.parse_top(raw)
@@ -261,17 +263,32 @@ def run_c06(tier, seed):
         if raw is BIG:
             # values larger than any internal chunk / buffer size (64 KiB, 1 MiB)
             recs = [{"id": 1, "payload": bytes(rng.randrange(256) for _ in range(70000)), "t": "x" * 66000}, {"id": 2, "payload": b"", "t": "end"}]
+        many = raw is MANY
+        if many:
+            # blocks of 64..8191 and >= 8192 records: the block's record count is a 2- / 3-byte varint, so a cut can
+            # fall INSIDE the count (every other file of this pool has 1-byte counts)
+            recs = [{"a": i} for i in range(70)] + [{"a": -i} for i in range(8200 if tier != "quick" else 130)]
         want = [NORM(p, ns, r, {}) for r in recs]
         for codec in CODECS:
             fo = io.BytesIO()
-            writer(fo, raw, recs, codec=codec, sync_interval=rng.choice([1, 40]), sync_marker=SYNC)
+            if many:
+                w = Writer(fo, raw, codec=codec, sync_interval=10 ** 7, sync_marker=SYNC)
+                for r in recs[:70]:
+                    w.write(r)
+                w.flush()
+                for r in recs[70:]:
+                    w.write(r)
+                w.flush()
+            else:
+                writer(fo, raw, recs, codec=codec, sync_interval=rng.choice([1, 40]), sync_marker=SYNC)
             data = fo.getvalue()
             f = D.parse_file(data)
             boundaries = {f["header_end"]} | {b["offset"] + b["size"] for b in f["blocks"]}
+            near = {x + d for x in boundaries for d in (-2, -1, 1, 2, 3) if 0 <= x + d <= len(data)}
             if len(data) > 20000:
-                cuts = sorted(set(rng.sample(range(len(data)), 120 if tier == "quick" else 1500)) | boundaries | set(range(0, 40)))
+                cuts = sorted(set(rng.sample(range(len(data)), 120 if tier == "quick" else 1500)) | boundaries | near | set(range(0, 40)))
             else:
-                cuts = range(len(data) + 1) if len(data) <= 700 or tier != "quick" else sorted(set(rng.sample(range(len(data)), 300)) | boundaries)
+                cuts = range(len(data) + 1) if len(data) <= 700 or tier != "quick" else sorted(set(rng.sample(range(len(data)), 300)) | boundaries | near)
             for cut in cuts:
                 res.case("truncation", (short(raw, 500), codec, cut), sample={"schema": short(raw), "codec": codec, "cut": cut, "len": len(data)})
                 got = []
